@@ -9,12 +9,20 @@ From RecordUpdate Require Import RecordSet.
 Import RecordSetNotations.
 Open Scope Z_scope.
 
-(* events that are neither a logger delivery nor a ground-truth record *)
+(* events that are neither a logger delivery, nor a ground-truth record, nor an agent callback *)
 Definition obs_event (e : event) : Prop :=
+  match e with
+  | EvConsult _ _ | EvProbe _ _ _ _ _ _ | EvStep _ _ => True
+  | _ => False
+  end.
+(* ... callbacks included: the events that carry no record to the logger and no ground truth *)
+Definition quiet_event (e : event) : Prop :=
   match e with
   | EvConsult _ _ | EvProbe _ _ _ _ _ _ | EvStep _ _ | EvCallback _ _ _ _ _ _ => True
   | _ => False
   end.
+Lemma obs_quiet e : obs_event e -> quiet_event e.
+Proof. destruct e; simpl; auto. Qed.
 Definition boundary_event (e : event) : Prop :=
   match e with EvSimBegin | EvSimEnd | EvSessBegin _ _ | EvSessEnd _ _ => True | _ => False end.
 
@@ -105,6 +113,7 @@ Section Lift.
 Variable P : sim -> Prop.
 Hypothesis H_fail : forall s e, P s -> P (fail s e).
 Hypothesis H_emit : forall s e, obs_event e -> P s -> P (emit s e).
+Hypothesis H_callback : forall s a kind r hold sw run, P s -> P (emit s (EvCallback a kind r hold sw run)).
 Hypothesis H_boundary : forall s e, boundary_event e -> P s -> P (flush (write s e)).
 Hypothesis H_accept_order : forall s mkid x ag mk buy p v ttlv m' rc tag,
   find_mkt mkid (s_markets s) = Some x -> add_order (mk_m x) ag mk buy p v ttlv = Ok (m', rc) ->
@@ -137,7 +146,7 @@ Proof. intros H Hs. unfold guard. destruct (ok s); auto. Qed.
 Lemma callback_pres s aid kind r mkid : P s -> P (callback s aid kind r mkid).
 Proof.
   intros H. unfold callback. destruct (find_agent aid (s_agents s)); [|apply H_fail; auto].
-  destruct (find_mkt mkid (s_markets s)); [|apply H_fail; auto]. apply H_emit; simpl; auto.
+  destruct (find_mkt mkid (s_markets s)); [|apply H_fail; auto]. apply H_callback; auto.
 Qed.
 
 Lemma before_order_effect_pres s h r : P s -> P (fst (before_order_effect s h r)).
@@ -272,6 +281,28 @@ Proof.
     apply callback_pres. eapply H_accept_cancel; eauto.
 Qed.
 
+End Lift.
+
+(* ---- everything above one request: the same lifting with the preservation by [handle_request] as a hypothesis, so that a
+   predicate which is only restored at the end of a request (e.g. "every record has been told to its parties") lifts too ---- *)
+Section Upper.
+Variable P : sim -> Prop.
+Hypothesis H_fail : forall s e, P s -> P (fail s e).
+Hypothesis H_emit : forall s e, obs_event e -> P s -> P (emit s e).
+Hypothesis H_boundary : forall s e, boundary_event e -> P s -> P (flush (write s e)).
+Hypothesis H_tick_all : forall s, P s -> P (tick_all s).
+Hypothesis H_pop_perm : forall s, P s -> P (fst (pop_perm s)).
+Hypothesis H_pop_draw : forall s, P s -> P (fst (pop_draw s)).
+Hypothesis H_consult : forall s aid, P s -> P (fst (consult s aid)).
+Hypothesis H_halt_before : forall s e x, In e (s_events s) -> find_mkt (m_id (mk_m x)) (s_markets s) = Some x -> P s -> P (halt_before_step s e x).
+Hypothesis H_shock : forall s e x, find_mkt (m_id (mk_m x)) (s_markets s) = Some x -> P s -> P (shock_before_step s e x).
+Hypothesis H_set_cur : forall s sid, P s -> P (s <| s_cur := sid |>).
+Hypothesis H_begin_iteration : forall s, P s -> P (begin_iteration s).
+Hypothesis handle_request_pres : forall s r, P s -> P (handle_request s r).
+
+Let fire_simple_pres := fire_simple_pres P H_emit.
+Let fire_market_pres := fire_market_pres P H_emit H_halt_before H_shock.
+
 Lemma collect_pres ags : forall s cap n acc, P s -> P (fst (collect s ags cap n acc)).
 Proof.
   induction ags as [|a rest IH]; simpl; intros s cap n acc H; auto.
@@ -290,7 +321,7 @@ Proof.
   destruct (negb (ok s1)); auto.
   destruct b as [|r0 b']; [apply IH; auto|].
   destruct (spoofed (a_id a) (r0 :: b')); [apply H_fail; auto|].
-  apply IH. apply fold_left_pres; auto. intros; apply handle_request_pres; auto.
+  apply IH. apply fold_left_pres; auto; intros; apply handle_request_pres; auto.
 Qed.
 
 Lemma handle_batch_pres s b : P s -> P (handle_batch s b).
@@ -305,7 +336,7 @@ Proof.
   destruct (negb (ok s3)); auto. apply hft_phase_pres; auto.
 Qed.
 
-Lemma update_markets_pres s : P s -> P (update_markets s).
+Lemma update_markets_up s : P s -> P (update_markets s).
 Proof.
   intros H. unfold update_markets. destruct (cur_sess s) as [se|]; [|apply H_fail; auto].
   pose proof (H_pop_perm _ H) as H1. destruct (pop_perm s) as [s1 p]. simpl in H1.
@@ -338,7 +369,7 @@ Proof.
   assert (H2 : P (match cur_sess s1 with
                   | Some se => if se_place se then update_markets s1 else s1
                   | None => fail s1 EOther end)).
-  { destruct (cur_sess s1) as [se|]; [|apply H_fail; auto]. destruct (se_place se); auto. apply update_markets_pres; auto. }
+  { destruct (cur_sess s1) as [se|]; [|apply H_fail; auto]. destruct (se_place se); auto. apply update_markets_up; auto. }
   set (s2 := match cur_sess s1 with Some se => _ | None => _ end) in *. destruct (negb (ok s2)); auto.
   assert (H3 : P (fold_left step_end (mids s2) s2)) by (apply fold_left_pres; auto; intros; apply step_end_pres; auto).
   destruct (negb (ok (fold_left step_end (mids s2) s2))); auto.
@@ -365,7 +396,7 @@ Proof.
 Qed.
 
 (* the whole run: from the initial state to the end, for every configuration and all input tapes *)
-Theorem run_pres c tape batches funds : P (init_sim c tape batches funds) -> P (run c tape batches funds).
+Theorem run_up c tape batches funds : P (init_sim c tape batches funds) -> P (run c tape batches funds).
 Proof.
   intros H. unfold run.
   assert (H1 : P (tick_all (flush (write (init_sim c tape batches funds) EvSimBegin)))).
@@ -376,7 +407,52 @@ Proof.
   destruct (negb (ok (fold_left run_session (s_sessions s1) s1))); auto. apply H_boundary; simpl; auto.
 Qed.
 
-End Lift.
+End Upper.
+
+(* the original one-piece lifting: every atomic update preserves P => the whole run does *)
+Section Whole.
+Variable P : sim -> Prop.
+Hypothesis H_fail : forall s e, P s -> P (fail s e).
+Hypothesis H_emit : forall s e, obs_event e -> P s -> P (emit s e).
+Hypothesis H_callback : forall s a kind r hold sw run, P s -> P (emit s (EvCallback a kind r hold sw run)).
+Hypothesis H_boundary : forall s e, boundary_event e -> P s -> P (flush (write s e)).
+Hypothesis H_accept_order : forall s mkid x ag mk buy p v ttlv m' rc tag,
+  find_mkt mkid (s_markets s) = Some x -> add_order (mk_m x) ag mk buy p v ttlv = Ok (m', rc) ->
+  P s -> P (do_accept_order s mkid x m' rc tag).
+Hypothesis H_accept_cancel : forall s mkid x i m' rc,
+  find_mkt mkid (s_markets s) = Some x -> cancel_order (mk_m x) i = Ok (m', rc) ->
+  P s -> P (do_accept_cancel s mkid m' rc).
+Hypothesis H_round : forall s mkid x,
+  find_mkt mkid (s_markets s) = Some x -> cur_switch s = true ->
+  P s -> P (emit s (EvRound mkid (m_running (mk_m x)) (s_cur s))).
+Hypothesis H_fills : forall s mkid x m' logs,
+  find_mkt mkid (s_markets s) = Some x -> execution (mk_m x) = Ok (m', logs) -> cur_switch s = true ->
+  (exists tr, s_trace s = EvRound mkid (m_running (mk_m x)) (s_cur s) :: tr) ->
+  P s -> P (do_fills s mkid m' logs).
+Hypothesis H_tick_all : forall s, P s -> P (tick_all s).
+Hypothesis H_pop_perm : forall s, P s -> P (fst (pop_perm s)).
+Hypothesis H_pop_draw : forall s, P s -> P (fst (pop_draw s)).
+Hypothesis H_consult : forall s aid, P s -> P (fst (consult s aid)).
+Hypothesis H_spent : forall s eid, P s ->
+  P (s <| s_events := upd_event eid (fun e => e <| es_spent := true |>) (s_events s) |>).
+Hypothesis H_halt_after : forall s e mkid, In e (s_events s) -> round_ctx mkid s -> P s -> P (halt_after_execution s e mkid).
+Hypothesis H_halt_before : forall s e x, In e (s_events s) -> find_mkt (m_id (mk_m x)) (s_markets s) = Some x -> P s -> P (halt_before_step s e x).
+Hypothesis H_shock : forall s e x, find_mkt (m_id (mk_m x)) (s_markets s) = Some x -> P s -> P (shock_before_step s e x).
+Hypothesis H_set_cur : forall s sid, P s -> P (s <| s_cur := sid |>).
+Hypothesis H_begin_iteration : forall s, P s -> P (begin_iteration s).
+
+Let HR := handle_request_pres P H_fail H_emit H_callback H_accept_order H_accept_cancel H_round H_fills H_spent H_halt_after.
+
+Lemma update_markets_pres s : P s -> P (update_markets s).
+Proof. apply (update_markets_up P H_fail H_pop_perm H_pop_draw H_consult HR). Qed.
+
+Theorem run_pres c tape batches funds : P (init_sim c tape batches funds) -> P (run c tape batches funds).
+Proof.
+  apply (run_up P H_fail H_emit H_boundary H_tick_all H_pop_perm H_pop_draw H_consult H_halt_before H_shock H_set_cur
+           H_begin_iteration HR).
+Qed.
+End Whole.
+
 
 (* the clock step of all markets from the single-market step *)
 Lemma tick_all_pres (P : sim -> Prop) :
